@@ -93,6 +93,14 @@ def run(pid, tier, seed, replay=None):
                     scs.append({"c": c2, "pred": None})
                     c3 = dict(c2); c3["combo"] = rng.choice(["pageby", "subline"])
                     scs.append({"c": c3, "pred": None})
+                    # non-contiguous orders combined with page_by / subline_by: the original order, and an order that is
+                    # contiguous inside each page_by / subline_by group but repeats the keys of the first group in the second
+                    c4 = dict(s["cfg"]); c4["combo"] = rng.choice(["pageby", "subline"])
+                    scs.append({"c": c4, "pred": None})
+                    half = (len(c2["keys"]) + 1) // 2
+                    if len(c2["keys"]) >= 2 and len(c2["keys"]) % 2 == 0:
+                        c5 = dict(c2); c5["keys"] = c2["keys"][:half] + c2["keys"][:half]; c5["combo"] = rng.choice(["pageby", "subline"])
+                        scs.append({"c": c5, "pred": None})
         for i, s in enumerate(scs):
             s["id"] = i
         recs = pmap(groupby.run_one, scs, chunk=16)
